@@ -54,6 +54,13 @@ Theorem fmt_rules_safe : safe_stages_b Gen.FmtRules.stages = true.
 Proof. exact FmtRulesProofs.fmt_rules_safe. Qed.
 Print Assumptions fmt_rules_safe.
 
+(* T: the stages that add or remove line breaks do not pass comments through
+   (the comment stage classifies comments by the line breaks around them) *)
+Theorem fmt_line_break_stages_see_comments :
+  forallb line_break_stage_sees_comments Gen.FmtRules.stages = true.
+Proof. exact FmtRulesProofs.fmt_line_break_stages_see_comments. Qed.
+Print Assumptions fmt_line_break_stages_see_comments.
+
 Theorem fmt_stage_preserves_significant : forall s rs ts fuel out,
   In s Gen.FmtRules.stages -> Forall2 refines (g_rules s) rs ->
   run fuel rs (g_pt s) ts = (Done, out) -> sig out = sig ts.
@@ -157,6 +164,7 @@ Check ProcessorProofs.safe_rules_example.
 Check ProcessorProofs.unsafe_rule_detected.
 Check BubbleProofs.bubble_can_reorder.
 Check FmtRulesProofs.fmt_rules_nonvacuous.
+Check FmtRulesProofs.fmt_line_break_stages_nonvacuous.
 Check StagesProofs.align_can_end_early.
 Check StagesProofs.comments_needs_raw_input.
 Check StagesProofs.comments_reindent_example.
